@@ -1,5 +1,6 @@
 import OrsoVerif.Model.PyVal
 import OrsoVerif.Model.SchemaOps
+import OrsoVerif.Model.SchemaEdit
 /-! Driver glue for C17: decode a column table, schemas over it and a program; run the
 register machine of `Model/SchemaOps.lean`; encode every output (columns by their tag). -/
 namespace Drv.C17
@@ -71,6 +72,25 @@ def decodeOp : PyVal → Option (IOp String)
   | .list [.str "drain", k] => do pure (.ask (← nat? k) .drain)
   | v => (decodeBase v).map .base
 
+/-- `["edit", t, how, arg]`: the column object `t` is edited (`Model/SchemaEdit.lean`). -/
+def decodeEdit : PyVal → PyVal → Option (Edit String)
+  | .str "append", .str x => some (.append x)
+  | .str "remove", .str x => some (.remove x)
+  | .str "insert", .str x => some (.insert x)
+  | .str "setitem", .str x => some (.setitem x)
+  | .str "delitem", .none => some .delitem
+  | .str "clear", .none => some .clear
+  | .str "extend", .list xs => (decodeStrs xs).map .extend
+  | .str "reverse", .none => some .reverse
+  | .str "replace", .none => some (.replace none)
+  | .str "replace", .list xs => (decodeStrs xs).map fun l => .replace (some l)
+  | .str "rename", .str x => some (.rename x)
+  | _, _ => none
+
+def decodeEOp : PyVal → Option (EOp String)
+  | .list [.str "edit", t, how, arg] => do pure (.edit (← nat? t) (← decodeEdit how arg))
+  | v => (decodeOp v).map .io
+
 def decodeTable : List PyVal → Option (List (String × String))
   | [] => some []
   | .list [.str a, .str b] :: rest => (decodeTable rest).map ((a, b) :: ·)
@@ -105,15 +125,19 @@ def encodeOut : IOut String String → PyVal
   | .it .stop => .list [.str "stop"]
   | .it (.rest l) => .list [.str "rest", encStrs l]
 
+def encodeEOut : EOut String String → PyVal
+  | .io o => encodeOut o
+  | .edited => .list [.str "edited"]
+
 def handle (op : String) (args : List PyVal) : Option (List PyVal) :=
   match op, args with
   | "run", [.list cols, .list schemas, .list prog, .list lower] => do
     let table ← decodeCols 0 cols
     let regs ← schemas.mapM (decodeSchema table)
-    let prog ← prog.mapM decodeOp
+    let prog ← prog.mapM decodeEOp
     let lower ← decodeTable lower
-    let (st', outs) ← irun iterSrc (lowerWith lower) { regs := regs, iters := [] } prog
-    pure [.list (outs.map encodeOut), .list (st'.regs.map fun s => encTags s.columns)]
+    let (st', outs) ← erun iterSrc (lowerWith lower) { regs := regs, iters := [] } prog
+    pure [.list (outs.map encodeEOut), .list (st'.regs.map fun s => encTags s.columns)]
   | _, _ => none
 
 end Drv.C17
